@@ -659,6 +659,7 @@ def rule_R7(toks: List[Tok], k: int, rep: Report, fn: str) -> List[Tok]:
     m = re.fullmatch(r"\((\w+),&(\w+)\)in ([\w.]+)\.iter\(\)\.enumerate\(\)", txt)
     m_enum = m is not None
     mw = None
+    ms = None
     pos = toks[kw].pos
     idx = f"idx__{k}"
     pre = f"let mut {idx}: usize = 0;"
@@ -670,10 +671,18 @@ def rule_R7(toks: List[Tok], k: int, rep: Report, fn: str) -> List[Tok]:
         m = re.fullmatch(r"&?(\w+) in ([\w.]+)\.iter\(\)", txt)
         mt = re.fullmatch(r"\(([\w,]+)\) ?in ?&(\w+)", txt)
         mw = re.fullmatch(r"(\w+) in (\w+)\.windows\((\w+)\)", txt)
+        ms = re.fullmatch(r"(\w+) in (\w+)\.into_iter\(\)\.skip\((\w+)\)", txt)
         if mt:
             # for (a, _, c) in &V: a tuple pattern against `&T` binds references to the fields (default binding modes), as does `let (..) = &V[i]`
             x, v = "(" + mt.group(1).replace(",", ", ") + ")", mt.group(2)
             bind = f"let {x} = &{v}[{idx}];"
+        elif ms:
+            # R24: for X in V.into_iter().skip(N): the elements from position N on, by value (Copy: checked by rustc in the generated unit;
+            # V is not used after the loop in /repo, since into_iter consumes it)
+            x, v = ms.group(1), ms.group(2)
+            bind = f"let {x} = {v}[{idx}];"
+            pre = f"let mut {idx}: usize = {ms.group(3)};"
+            mw = None
         elif mw:
             # R23: for W in V.windows(N): every contiguous sub-slice of length N, in order
             x, v, nwin = mw.group(1), mw.group(2), mw.group(3)
@@ -693,6 +702,8 @@ def rule_R7(toks: List[Tok], k: int, rep: Report, fn: str) -> List[Tok]:
            Tok("punct", "{", toks[bo].pos, " "), syn(bind, toks[bo].pos, " ")] + body + \
           [syn(f"{idx} += 1;", toks[bc].pos, " "), toks[bc]]
     rep.rule("R23 for-in-windows(n) loop -> index while loop" if (not m_enum and mw) else "R7 for-in-iter loop -> index while loop")
+    if not m_enum and ms:
+        rep.rule("R24 for-in-into_iter().skip(n) loop -> index while loop starting at n")
     return toks[:kw] + new + toks[bc + 1:]
 
 
